@@ -152,6 +152,8 @@ func (c *Conn) ReadFrom(r io.Reader) (n int64, err error) {
 	for {
 		if bufNode.Cap() == 0 {
 			if err1 := c.Flush(); err1 != nil {
+				// (the node is still full: nothing of it is free for the next Malloc)
+				c.outputBuffer.len = bufNode.Cap()
 				return n, err1
 			}
 		}
@@ -177,6 +179,7 @@ func (c *Conn) ReadFrom(r io.Reader) (n int64, err error) {
 	if err == io.EOF {
 		// If we filled the buffer exactly, flush preemptively.
 		if bufNode.Cap() == 0 {
+			c.outputBuffer.len = 0
 			err = c.Flush()
 		} else {
 			err = nil
